@@ -71,12 +71,34 @@ def member(kind, B, ar, tiers):
             goal.append(x == y)
     r = smt_prove(A, pre, goal, timeout_s=60, seed=seed())
     if r.verdict == REFUTED:
-      from verif.contracts import C15
-      r.replay = C15._native_autoreset(None)
+      r.replay = _native_member()
     return r
   return Obligation('C07/%s.step/member[B=%d,ar=%d]' % (kind, B, ar), 'brax.envs.wrappers.training:%s' % {'episode': 'EpisodeWrapper.step', 'autoreset': 'AutoResetWrapper.step', 'eval': 'EvalWrapper.step'}[kind],
                     'member i of the batched step = the single-instance step applied to member i\'s state and action (every leaf: obs, reward, done, pipeline_state, metrics, info), '
                     'for all states, actions, done patterns and any per-member environment', run, backend='smt', tiers=tiers, budget=200)
+
+
+def _native_member():
+  """batched wrapped env (2 members, different termination schedules) vs each member wrapped alone"""
+  from verif.contracts import C15
+  tr = _tr()
+  for L in (2, 3, 4):
+    for s0, s1 in (((0, 1, 0, 0, 0, 0), (0, 0, 0, 0, 0, 0)), ((1, 0, 0, 1, 0, 0), (0, 0, 1, 0, 0, 0)), ((0, 0, 0, 0, 0, 0), (1, 1, 0, 0, 1, 0))):
+      mk = lambda scheds: tr.EvalWrapper(tr.AutoResetWrapper(tr.EpisodeWrapper(C15.Scripted([list(x) * 3 for x in scheds]).make(), L, 1)))
+      both = mk([s0, s1])
+      solo = [mk([s0]), mk([s1])]
+      sb = both.reset(jp.zeros((2, 2), dtype=jp.uint32))
+      ss = [e.reset(jp.zeros((1, 2), dtype=jp.uint32)) for e in solo]
+      for k in range(10):
+        sb = both.step(sb, jp.zeros((2, 1)))
+        ss = [e.step(x, jp.zeros((1, 1))) for e, x in zip(solo, ss)]
+        for i in range(2):
+          got = (float(sb.done[i]), float(sb.info['steps'][i]), float(sb.info['truncation'][i]), float(sb.obs[i, 0]), float(sb.info['eval_metrics'].episode_metrics['reward'][i]))
+          want = (float(ss[i].done[0]), float(ss[i].info['steps'][0]), float(ss[i].info['truncation'][0]), float(ss[i].obs[0, 0]), float(ss[i].info['eval_metrics'].episode_metrics['reward'][0]))
+          if got != want:
+            return {'reproduced': True, 'episode_length': L, 'schedules': [list(s0), list(s1)], 'wrapped_step': k, 'member': i,
+                    'batched(done,steps,trunc,obs,metric)': got, 'solo': want}
+  return {'reproduced': False}
 
 
 class TinyEnv:
